@@ -161,6 +161,9 @@ public:
     double t_avg_MGC_directSolver;
 
 private:
+#ifdef GMGPOLAR_VERIF
+    friend struct GMGPolarVerifAccess; // defined by the verification harness only
+#endif
     /* --------------- */
     /* Grid Parameters */
     double R0_;
